@@ -49,6 +49,9 @@ func (c C11Config) definition(h *server.VHist, id string) map[string]interface{}
 	switch c.Sink {
 	case "dataset", "failing":
 		sink = map[string]interface{}{"Type": "DatasetSink", "Name": h.DsName("Z")}
+	case "missing-dataset":
+		// a sink that rejects every batch: its dataset does not exist
+		sink = map[string]interface{}{"Type": "DatasetSink", "Name": h.DsName("NOSUCH")}
 	case "devnull":
 		sink = map[string]interface{}{"Type": "DevNullSink"}
 	case "console":
@@ -75,6 +78,8 @@ func (c C11Config) definition(h *server.VHist, id string) map[string]interface{}
 	switch c.Transform {
 	case "js-identity":
 		def["transform"] = map[string]interface{}{"Type": "JavascriptTransform", "Code": base64.StdEncoding.EncodeToString([]byte(`function transform_entities(entities) { return entities; }`))}
+	case "js-drop-all":
+		def["transform"] = map[string]interface{}{"Type": "JavascriptTransform", "Code": base64.StdEncoding.EncodeToString([]byte(`function transform_entities(entities) { return []; }`))}
 	case "js-throws":
 		def["transform"] = map[string]interface{}{"Type": "JavascriptTransform", "Code": base64.StdEncoding.EncodeToString([]byte(`function transform_entities(entities) { throw "boom"; }`))}
 	}
@@ -84,8 +89,8 @@ func (c C11Config) definition(h *server.VHist, id string) map[string]interface{}
 func c11Configs() []C11Config {
 	var out []C11Config
 	for _, s := range []string{"dataset", "dataset-latest", "union", "multi", "sample"} {
-		for _, t := range []string{"none", "js-identity", "js-throws"} {
-			for _, k := range []string{"dataset", "devnull", "console", "failing"} {
+		for _, t := range []string{"none", "js-identity", "js-throws", "js-drop-all"} {
+			for _, k := range []string{"dataset", "devnull", "console", "failing", "missing-dataset"} {
 				for _, tr := range []string{"cron", "onchange"} {
 					for _, jt := range []string{"incremental", "fullsync"} {
 						for _, oe := range []string{"none", "log", "rerun", "log+rerun", "log1"} {
